@@ -1136,3 +1136,76 @@ Proof.
   - cbv zeta. split; [|split]; (split; [vm_compute; discriminate|split; [vm_compute; discriminate|]]); intros t Ht; vm_compute in Ht; injection Ht as <-; cbn; lia.
 Qed.
 End C04_translated_chain_example.
+
+(* ---- lbuf_cp on the translated C text (coq/TrLbufCp.v; whitelist tools/c2clite.d/99zzzzz_lbufcp.list), and the oracle hypothesis cp_oracle of
+   C04_tr_lbuf_opt / C04_tr_lbuf_edit / C04_tr_lbuf_edit_full / the chain theorems discharged with the function itself (coq/TrLbufCpUse.v).
+   * C04_tr_lbuf_cp: for EVERY memory that holds a line table (cp_view: the struct's cells ln and ln_n, the pointer array, one block per line
+     holding the line as a C string), every beg >= 0 and every end (end < beg: the empty copy; rows >= ln_n are skipped, as the C text's
+     `if (i < lb->ln_n)` says) the call returns a pointer to the start of a block that did not exist before; the block starts with exactly the
+     rows beg..end-1 one after the other plus the terminator (it is LONGER than the string: sbuf.c's capacity); every block that existed before
+     is unchanged; the struct sbuf (the first new block) has been freed.  Side conditions: the copy is at most 500 MB (every size computation of
+     sbuf.c then stays inside int), one unit of loop fuel per row.  No oracle is left: sbuf_make / sbuf_str / sbuf_done are coq/TrSbuf.v.
+   * C04_tr_cp_discharged: every oracle that answers X_lbuf_cp by running the translated lbuf_cp satisfies the statement of cp_oracle for the
+     concrete table predicate Tc, on every state whose lines have no NUL byte, for every copy of at most 500 MB that the fuel covers.  These three
+     side conditions are exactly what cp_oracle (stated for ALL memories, rows and sizes with one fixed oracle) leaves out and the real function
+     needs: cp_oracle itself is cp_oracle_when with the trivial side condition (C04_tr_cp_oracle_is_when). *)
+From NV Require Bytes TrSbuf TrLbufCp TrLbufCpUse.
+Section C04_translated_cp.
+Import Lia CLite CLiteProps CLiteExt GenCFuncs TrLbufBase TrUndoBase TrUndoOpt TrCmp4.
+Local Open Scope Z_scope.
+
+Theorem C04_tr_lbuf_cp : forall (m : mem) (bl : nat) (lines : list (list N)) (b e : Z) (d fuel : nat),
+  TrLbufCp.cp_view m bl lines -> 0 <= b -> -2147483648 <= e <= 2147483647 ->
+  TrLbufCp.total (TrLbufCp.cp_rows lines b e) <= 500000000 -> (Z.to_nat (e - b) < fuel)%nat ->
+  exists (pb : nat) (m' : mem) (rest : block),
+    callf cprog fuel (S (S (S (S d)))) F_lbuf_cp [VPtr bl 0; VInt b; VInt e] m = Ok (VPtr pb 0, m') /\
+    nth_error m' pb = Some (cstr_block (zb (TrLbufCp.cp_bytes lines b e)) ++ rest) /\
+    (length m < pb < length m')%nat /\ nth_error m' (length m) = Some [] /\
+    (forall k, (k < length m)%nat -> nth_error m' k = nth_error m k).
+Proof. exact TrLbufCp.tr_lbuf_cp. Qed.
+Print Assumptions C04_tr_lbuf_cp.
+
+Theorem C04_tr_cp_discharged : forall (ext : nat -> list val -> mem -> res (val * mem)) (fuel d bl : nat),
+  (forall args m, ext X_lbuf_cp args m = callf cprog fuel (S (S (S (S d)))) F_lbuf_cp args m) ->
+  forall (m : mem) (blk : block) (bh : nat) (hblk : block) (lb : lbuf) (b e : nat),
+    urep Tc m bl blk bh hblk lb -> i31 e ->
+    Forall Bytes.nonul (ln lb) -> Z.of_nat (length (lbuf_cp lb b e)) <= 500000000 -> (e - b < fuel)%nat ->
+    exists bd (m' : mem), ext X_lbuf_cp [VPtr bl 0; VInt (Z.of_nat b); VInt (Z.of_nat e)] m = Ok (VPtr bd 0, m') /\
+      (length m <= bd < length m')%nat /\ (forall b', (b' < length m)%nat -> nth_error m' b' = nth_error m b') /\
+      cstr_from m' bd 0 (lbuf_cp lb b e) /\ Bytes.nonul (lbuf_cp lb b e).
+Proof.
+  intros ext fuel d bl X m blk bh hblk lb b e R He Hn Hs Hf.
+  exact (TrLbufCpUse.tr_cp_discharged_C04 ext fuel d bl X m blk bh hblk lb b e R He (conj Hn (conj Hs Hf))).
+Qed.
+Print Assumptions C04_tr_cp_discharged.
+
+Theorem C04_tr_cp_oracle_is_when : forall (ext : nat -> list val -> mem -> res (val * mem)) (T : Tpred) (bl : nat),
+  TrLbufCpUse.cp_oracle_when (fun _ _ _ => True) ext T bl <-> cp_oracle ext T bl.
+Proof. exact TrLbufCpUse.cp_oracle_when_true. Qed.
+Print Assumptions C04_tr_cp_oracle_is_when.
+
+(* not vacuous, and the translated lbuf_cp RUNS: on the buffer of C04_tr_edit_undo_redo_runs (two lines "a\n", "b\n") lbuf_cp(lb, 0, 2) returns
+   the block behind the freed struct sbuf; it starts with "a\nb\n" and the terminator (and is 128 cells long); lbuf_cp(lb, 1, 5) copies row 1
+   only.  The memory satisfies cp_view and urep Tc, the side conditions of C04_tr_cp_discharged hold, and the oracle TrLbufCpUse.ext_cp is one
+   that runs the C text. *)
+Example C04_tr_cp_runs :
+  (match callf cprog 100 8 F_lbuf_cp [VPtr cx_G 0; VInt 0; VInt 2] cx_mem with
+   | Ok (VPtr pb 0, m') => pb = S (length cx_mem) /\ firstn 5 (nth pb m' []) = cstr_block [97; 10; 98; 10] /\ length (nth pb m' []) = 128%nat /\
+                           nth_error m' (length cx_mem) = Some [] /\ firstn (length cx_mem) m' = cx_mem
+   | _ => False
+   end) /\
+  (match callf cprog 100 8 F_lbuf_cp [VPtr cx_G 0; VInt 1; VInt 5] cx_mem with
+   | Ok (VPtr pb 0, m') => firstn 3 (nth pb m' []) = cstr_block [98; 10]
+   | _ => False
+   end) /\
+  TrLbufCp.cp_view cx_mem cx_G (ln cx_lb) /\ urep Tc cx_mem cx_G cx_struct (cx_G + 5) (repeat VUndef 36) cx_lb /\
+  Forall Bytes.nonul (ln cx_lb) /\ Z.of_nat (length (lbuf_cp cx_lb 0 2)) <= 500000000 /\ (2 - 0 < 100)%nat /\
+  (forall args m, TrLbufCpUse.ext_cp 100 4 X_lbuf_cp args m = callf cprog 100 8 F_lbuf_cp args m).
+Proof.
+  assert (N : Forall Bytes.nonul (ln cx_lb)) by (repeat constructor; lia).
+  pose proof C04_tr_edit_undo_redo_runs as (_ & R & _).
+  split; [vm_compute; repeat split; reflexivity|]. split; [vm_compute; reflexivity|].
+  split; [apply (TrLbufCpUse.urep_view _ _ _ _ _ _ R N)|]. split; [exact R|]. split; [exact N|].
+  split; [cbn; lia|]. split; [lia|]. exact (TrLbufCpUse.ext_cp_is 100 4).
+Qed.
+End C04_translated_cp.
